@@ -644,11 +644,26 @@ func cmdGenNil(args []string) {
 	dir := fs.String("dir", ".", "output directory")
 	ndir := fs.Int("directed", 0, "number of programs the directed (source x shape) family is spread over (0 = none)")
 	full := fs.Bool("full", false, "directed family: every source in every shape (default: one seeded merging shape per source)")
+	nuse := fs.Int("use", 0, "number of programs the refinement-by-use (use x source x shape) family is spread over (0 = none)")
 	fs.Parse(args)
+	type famT struct {
+		prefix string
+		texts  []string
+		metas  [][]dirFn
+	}
+	var fams []famT
 	if *ndir > 0 {
 		texts, metas := genDirPrograms(*seed, *ndir, *full)
-		for i, text := range texts {
-			d := filepath.Join(*dir, fmt.Sprintf("dir_%d_%d", *seed, i))
+		fams = append(fams, famT{"dir", texts, metas})
+	}
+	if *nuse > 0 {
+		texts, metas := genUsePrograms(*seed, *nuse, *full)
+		fams = append(fams, famT{"use", texts, metas})
+	}
+	for _, fam := range fams {
+		metas := fam.metas
+		for i, text := range fam.texts {
+			d := filepath.Join(*dir, fmt.Sprintf("%s_%d_%d", fam.prefix, *seed, i))
 			if err := os.MkdirAll(filepath.Join(d, "lib"), 0o755); err != nil {
 				die("%v", err)
 			}
